@@ -30,7 +30,10 @@ DegOK(its, s, e, x) ==
 IntervalOK(its, s, e, res) ==
   /\ IsSubseq(Req(its, s, e), res)
   /\ \A k \in 1..Len(res) : (\E j \in 1..Len(Req(its, s, e)) : Req(its, s, e)[j] = res[k]) \/ DegOK(its, s, e, res[k])
-  /\ \A k \in 2..Len(res) : res[k-1][1] <= res[k][1] /\ res[k-1] # res[k]
+  /\ \A k \in 2..Len(res) : res[k-1][1] <= res[k][1]
+  \* nothing is returned more often than it is stored (identical zero-length values may be stored twice)
+  /\ \A k \in 1..Len(res) : Cardinality({j \in 1..Len(res) : res[j] = res[k]})
+                                <= Max2(1, Cardinality({j \in 1..Len(its) : its[j] = res[k]}))
 NanTok == -99
 ValuesOK(its, s, e, vals) ==
   /\ Len(vals) = e - s
